@@ -311,6 +311,8 @@ class RandInfoBuilder(ModelVisitor,RandIF):
                     # TODO: this might be later
                     for c in self._active_randset.constraints():
                         ex_randset.add_constraint(c)
+                        
+                    self._merge_dist_fields(ex_randset, self._active_randset)
 
                     # Remove the previous randset
                     idx = self._randset_m[self._active_randset]
@@ -400,6 +402,8 @@ class RandInfoBuilder(ModelVisitor,RandIF):
                     
                 for c in self._active_randset.soft_constraints():
                     ex_randset.add_constraint(c)
+                    
+                self._merge_dist_fields(ex_randset, self._active_randset)
 
                 # Remove the previous randset
                 idx = self._randset_m[self._active_randset]
@@ -430,6 +434,14 @@ class RandInfoBuilder(ModelVisitor,RandIF):
         if RandInfoBuilder.EN_DEBUG > 0:
             print("<-- RandInfoBuilder::process_fieldref %s" % fm.fullname)
         
+        
+    def _merge_dist_fields(self, dst_randset, src_randset):
+        # The dist constraints registered with a randset move with its fields
+        for f,dist_l in src_randset.dist_field_m.items():
+            if f in dst_randset.dist_field_m.keys():
+                dst_randset.dist_field_m[f].extend(dist_l)
+            else:
+                dst_randset.dist_field_m[f] = dist_l
         
     def visit_composite_field(self, f):
         old_used_rand = self._used_rand
